@@ -412,6 +412,9 @@ def run(ctx, tier):
     results += ob['O1'] + ob['O2'] + ob['O3']
     import c02
     results += c02.cow_free_set(ctx, rule='C11.cow.free-set')
+    results += commit.complete_writes(ctx, rule='C11.complete-writes')
+    import refcell
+    results += refcell.no_reborrow(ctx, 'C11.no-reborrow')
     import c02
     results += c02.alternate_rule(ctx, rule='C11.alternate')
     return dict(
